@@ -39,11 +39,13 @@ pub struct Ctx {
     pub inner: RefCell<Option<Result<Vec<Part>, Token>>>,
     /// hand-built results: what the closure put into the number it returned, in the order the driver owes it
     pub built: RefCell<Option<Vec<Part>>>,
+    /// the real parts (of type T, all their components, sign of zeros included) of what the closure was handed
+    pub seen: RefCell<Vec<Part>>,
 }
 
 impl Ctx {
     pub fn new(plan: Plan, token: u64) -> Ctx {
-        Ctx { plan, token, calls: Cell::new(0), inner: RefCell::new(None), built: RefCell::new(None) }
+        Ctx { plan, token, calls: Cell::new(0), inner: RefCell::new(None), built: RefCell::new(None), seen: RefCell::new(Vec::new()) }
     }
 }
 
@@ -83,6 +85,8 @@ pub trait Subj<F>: DualNum<F> + Clone {
     const F32: bool;
     fn make(a: f64, b: [f64; 2]) -> Self;
     fn part(&self) -> Part;
+    /// like `part`, but with the signs of zeros as they are
+    fn raw(&self) -> Part;
 }
 impl Subj<f64> for f64 {
     const NESTED: bool = false;
@@ -92,6 +96,9 @@ impl Subj<f64> for f64 {
     }
     fn part(&self) -> Part {
         (canon(*self), None, None)
+    }
+    fn raw(&self) -> Part {
+        (self.to_bits(), None, None)
     }
 }
 impl Subj<f32> for f32 {
@@ -103,6 +110,9 @@ impl Subj<f32> for f32 {
     fn part(&self) -> Part {
         (canon(*self as f64), None, None)
     }
+    fn raw(&self) -> Part {
+        ((*self as f64).to_bits(), None, None)
+    }
 }
 impl Subj<f64> for Dual64 {
     const NESTED: bool = true;
@@ -112,6 +122,9 @@ impl Subj<f64> for Dual64 {
     }
     fn part(&self) -> Part {
         (canon(self.re), Some(canon(self.eps)), None)
+    }
+    fn raw(&self) -> Part {
+        (self.re.to_bits(), Some(self.eps.to_bits()), None)
     }
 }
 /// T with a dynamically sized, possibly absent derivative part of its own: two directions per variable; a variable
@@ -129,6 +142,10 @@ impl Subj<f64> for DualDVec64 {
     fn part(&self) -> Part {
         let e = self.eps.clone().unwrap_generic(Dyn(2), Const::<1>);
         (canon(self.re), Some(canon(e[0])), Some(canon(e[1])))
+    }
+    fn raw(&self) -> Part {
+        let e = self.eps.clone().unwrap_generic(Dyn(2), Const::<1>);
+        (self.re.to_bits(), Some(e[0].to_bits()), Some(e[1].to_bits()))
     }
 }
 
@@ -259,25 +276,26 @@ macro_rules! reenter_with {
 
 pub fn first_derivative_case<T: Subj<F>, F: DualNumFloat>(fx: &Fx, inner: Option<&Fx>, fallible: bool, ctx: &Ctx) -> Result<Vec<Part>, Token> {
     let x = T::make(fx.a[0], fx.b[0]);
-    let body = |v: Dual<T, F>| behave(ctx, || match fx.hand { Some(h) => { let (t, p) = hscalars::<T, F>(&mut Rng::new(h), 2); *ctx.built.borrow_mut() = Some(p); Dual::new(t[0].clone(), t[1].clone()) } None => evaluate(fx, 0, &[v.clone()]) }, reenter_with!(ctx, inner, |i, c| first_derivative_case::<T, F>(i, None, fallible, c)));
+    let body = |v: Dual<T, F>| { ctx.seen.borrow_mut().push(v.re.raw()); behave(ctx, || match fx.hand { Some(h) => { let (t, p) = hscalars::<T, F>(&mut Rng::new(h), 2); *ctx.built.borrow_mut() = Some(p); Dual::new(t[0].clone(), t[1].clone()) } None => evaluate(fx, 0, &[v.clone()]) }, reenter_with!(ctx, inner, |i, c| first_derivative_case::<T, F>(i, None, fallible, c))) };
     let r = if fallible { try_first_derivative(body, x)? } else { first_derivative(|v| infallible(body(v)), x) };
     Ok(vec![r.0.part(), r.1.part()])
 }
 pub fn second_derivative_case<T: Subj<F>, F: DualNumFloat>(fx: &Fx, inner: Option<&Fx>, fallible: bool, ctx: &Ctx) -> Result<Vec<Part>, Token> {
     let x = T::make(fx.a[0], fx.b[0]);
-    let body = |v: Dual2<T, F>| behave(ctx, || match fx.hand { Some(h) => { let (t, p) = hscalars::<T, F>(&mut Rng::new(h), 3); *ctx.built.borrow_mut() = Some(p); Dual2::new(t[0].clone(), t[1].clone(), t[2].clone()) } None => evaluate(fx, 0, &[v.clone()]) }, reenter_with!(ctx, inner, |i, c| second_derivative_case::<T, F>(i, None, fallible, c)));
+    let body = |v: Dual2<T, F>| { ctx.seen.borrow_mut().push(v.re.raw()); behave(ctx, || match fx.hand { Some(h) => { let (t, p) = hscalars::<T, F>(&mut Rng::new(h), 3); *ctx.built.borrow_mut() = Some(p); Dual2::new(t[0].clone(), t[1].clone(), t[2].clone()) } None => evaluate(fx, 0, &[v.clone()]) }, reenter_with!(ctx, inner, |i, c| second_derivative_case::<T, F>(i, None, fallible, c))) };
     let r = if fallible { try_second_derivative(body, x)? } else { second_derivative(|v| infallible(body(v)), x) };
     Ok(vec![r.0.part(), r.1.part(), r.2.part()])
 }
 pub fn third_derivative_case<T: Subj<F>, F: DualNumFloat>(fx: &Fx, inner: Option<&Fx>, fallible: bool, ctx: &Ctx) -> Result<Vec<Part>, Token> {
     let x = T::make(fx.a[0], fx.b[0]);
-    let body = |v: Dual3<T, F>| behave(ctx, || match fx.hand { Some(h) => { let (t, p) = hscalars::<T, F>(&mut Rng::new(h), 4); *ctx.built.borrow_mut() = Some(p); Dual3::new(t[0].clone(), t[1].clone(), t[2].clone(), t[3].clone()) } None => evaluate(fx, 0, &[v.clone()]) }, reenter_with!(ctx, inner, |i, c| third_derivative_case::<T, F>(i, None, fallible, c)));
+    let body = |v: Dual3<T, F>| { ctx.seen.borrow_mut().push(v.re.raw()); behave(ctx, || match fx.hand { Some(h) => { let (t, p) = hscalars::<T, F>(&mut Rng::new(h), 4); *ctx.built.borrow_mut() = Some(p); Dual3::new(t[0].clone(), t[1].clone(), t[2].clone(), t[3].clone()) } None => evaluate(fx, 0, &[v.clone()]) }, reenter_with!(ctx, inner, |i, c| third_derivative_case::<T, F>(i, None, fallible, c))) };
     let r = if fallible { try_third_derivative(body, x)? } else { third_derivative(|v| infallible(body(v)), x) };
     Ok(vec![r.0.part(), r.1.part(), r.2.part(), r.3.part()])
 }
 pub fn second_partial_derivative_case<T: Subj<F>, F: DualNumFloat>(fx: &Fx, inner: Option<&Fx>, fallible: bool, ctx: &Ctx) -> Result<Vec<Part>, Token> {
     let (x, y) = (T::make(fx.a[0], fx.b[0]), T::make(fx.a[1], fx.b[1]));
     let body = |u: HyperDual<T, F>, v: HyperDual<T, F>| {
+        ctx.seen.borrow_mut().extend([u.re.raw(), v.re.raw()]);
         behave(ctx, || match fx.hand { Some(h) => { let (t, p) = hscalars::<T, F>(&mut Rng::new(h), 4); *ctx.built.borrow_mut() = Some(p); HyperDual::new(t[0].clone(), t[1].clone(), t[2].clone(), t[3].clone()) } None => evaluate(fx, 0, &[u.clone(), v.clone()]) }, reenter_with!(ctx, inner, |i, c| second_partial_derivative_case::<T, F>(i, None, fallible, c)))
     };
     let r = if fallible { try_second_partial_derivative(body, x, y)? } else { second_partial_derivative(|u, v| infallible(body(u, v)), x, y) };
@@ -286,6 +304,7 @@ pub fn second_partial_derivative_case<T: Subj<F>, F: DualNumFloat>(fx: &Fx, inne
 pub fn third_partial_derivative_case<T: Subj<F>, F: DualNumFloat>(fx: &Fx, inner: Option<&Fx>, fallible: bool, ctx: &Ctx) -> Result<Vec<Part>, Token> {
     let (x, y, z) = (T::make(fx.a[0], fx.b[0]), T::make(fx.a[1], fx.b[1]), T::make(fx.a[2], fx.b[2]));
     let body = |u: HyperHyperDual<T, F>, v: HyperHyperDual<T, F>, w: HyperHyperDual<T, F>| {
+        ctx.seen.borrow_mut().extend([u.re.raw(), v.re.raw(), w.re.raw()]);
         behave(ctx, || match fx.hand { Some(h) => { let (t, p) = hscalars::<T, F>(&mut Rng::new(h), 8); *ctx.built.borrow_mut() = Some(p); HyperHyperDual::new(t[0].clone(), t[1].clone(), t[2].clone(), t[3].clone(), t[4].clone(), t[5].clone(), t[6].clone(), t[7].clone()) } None => evaluate(fx, 0, &[u.clone(), v.clone(), w.clone()]) }, reenter_with!(ctx, inner, |i, c| third_partial_derivative_case::<T, F>(i, None, fallible, c)))
     };
     let r = if fallible { try_third_partial_derivative(body, x, y, z)? } else { third_partial_derivative(|u, v, w| infallible(body(u, v, w)), x, y, z) };
@@ -294,7 +313,7 @@ pub fn third_partial_derivative_case<T: Subj<F>, F: DualNumFloat>(fx: &Fx, inner
 pub fn third_partial_derivative_vec_case<T: Subj<F>, F: DualNumFloat>(fx: &Fx, inner: Option<&Fx>, fallible: bool, ctx: &Ctx) -> Result<Vec<Part>, Token> {
     let x: Vec<T> = fx.a.iter().zip(&fx.b).map(|(a, b)| T::make(*a, *b)).collect();
     let [i, j, k] = fx.ijk;
-    let body = |v: &[HyperHyperDual<T, F>]| behave(ctx, || match fx.hand { Some(h) => { let (t, p) = hscalars::<T, F>(&mut Rng::new(h), 8); *ctx.built.borrow_mut() = Some(p); HyperHyperDual::new(t[0].clone(), t[1].clone(), t[2].clone(), t[3].clone(), t[4].clone(), t[5].clone(), t[6].clone(), t[7].clone()) } None => evaluate(fx, 0, v) }, reenter_with!(ctx, inner, |i2, c| third_partial_derivative_vec_case::<T, F>(i2, None, fallible, c)));
+    let body = |v: &[HyperHyperDual<T, F>]| { ctx.seen.borrow_mut().extend(v.iter().map(|x| x.re.raw())); behave(ctx, || match fx.hand { Some(h) => { let (t, p) = hscalars::<T, F>(&mut Rng::new(h), 8); *ctx.built.borrow_mut() = Some(p); HyperHyperDual::new(t[0].clone(), t[1].clone(), t[2].clone(), t[3].clone(), t[4].clone(), t[5].clone(), t[6].clone(), t[7].clone()) } None => evaluate(fx, 0, v) }, reenter_with!(ctx, inner, |i2, c| third_partial_derivative_vec_case::<T, F>(i2, None, fallible, c))) };
     let r = if fallible { try_third_partial_derivative_vec(body, &x, i, j, k)? } else { third_partial_derivative_vec(|v| infallible(body(v)), &x, i, j, k) };
     Ok(vec![r.0.part(), r.1.part(), r.2.part(), r.3.part(), r.4.part(), r.5.part(), r.6.part(), r.7.part()])
 }
@@ -307,6 +326,7 @@ where
 {
     let x = mkvec::<T, F, D>(&fx.a, &fx.b);
     let body = |v: OVector<DualVec<T, F, D>, D>| {
+        ctx.seen.borrow_mut().extend(v.iter().map(|x| x.re.raw()));
         behave(
             ctx,
             || match fx.hand {
@@ -336,6 +356,7 @@ where
 {
     let x = mkvec::<T, F, D>(&fx.a, &fx.b);
     let body = |v: OVector<Dual2Vec<T, F, D>, D>| {
+        ctx.seen.borrow_mut().extend(v.iter().map(|x| x.re.raw()));
         behave(
             ctx,
             || match fx.hand {
@@ -371,6 +392,7 @@ where
     let x = mkvec::<T, F, N>(&fx.a, &fx.b);
     let m = fx.polys.len();
     let body = |v: OVector<DualVec<T, F, N>, N>| {
+        ctx.seen.borrow_mut().extend(v.iter().map(|x| x.re.raw()));
         behave(
             ctx,
             || match fx.hand {
@@ -412,6 +434,7 @@ where
     let x = mkvec::<T, F, M>(&fx.a[..m], &fx.b[..m]);
     let y = mkvec::<T, F, N>(&fx.a[m..], &fx.b[m..]);
     let body = |u: OVector<HyperDualVec<T, F, M, N>, M>, v: OVector<HyperDualVec<T, F, M, N>, N>| {
+        ctx.seen.borrow_mut().extend(u.iter().chain(v.iter()).map(|x| x.re.raw()));
         behave(
             ctx,
             || match fx.hand {
@@ -577,5 +600,19 @@ pub fn call(driver: &str, scalar: &str, dim: &str, fx: &Fx, inner: Option<&Fx>, 
         "jacobian" => by_scalar_dim2!(jacobian_case, scalar, dim, fx, inner, fallible, ctx),
         "partial_hessian" => by_scalar_dim2!(partial_hessian_case, scalar, dim, fx, inner, fallible, ctx),
         other => panic!("harness error: unknown driver {other}"),
+    }
+}
+
+/// the real parts the closure of a scenario must be handed: the caller's point, component by component, signs of zeros included
+pub fn handed(scalar: &str, fx: &Fx) -> Vec<Part> {
+    fn one<T: Subj<F>, F>(fx: &Fx) -> Vec<Part> {
+        fx.a.iter().zip(&fx.b).map(|(a, b)| T::make(*a, *b).raw()).collect()
+    }
+    match scalar {
+        "f64" => one::<f64, f64>(fx),
+        "f32" => one::<f32, f32>(fx),
+        "nested" => one::<Dual64, f64>(fx),
+        "nestedvec" => one::<DualDVec64, f64>(fx),
+        other => panic!("harness error: scalar configuration {other}"),
     }
 }
